@@ -25,6 +25,8 @@ WORDS = {
     "couplings": dict(helicity_couplings=True),
     "stable": dict(stable="all"),
     "scalar": dict(scalar_initial_mass=True),
+    "parent_hel": dict(naming="parent"),
+    "no_child_hel": dict(naming="nochild"),
 }
 
 
@@ -53,10 +55,16 @@ def main() -> None:
     if history[0].startswith("@"):
         # ONE builder (Breit-Wigner with form factor on every resonance), reconfigured between the formulate() calls
         history[0] = history[0][1:]
-        b = models.make_builder(models.Config(reaction, formalism, dynamics="bwff"))
-        for w in history:
-            models.reconfigure(b, models.Config(reaction, formalism, **WORDS[w]))
-            last = b.formulate()
+        for dyn in ("bwff", "bw"):  # the form-factor builder documents that it refuses nodes without L (helicity formalism, half-integer spins)
+            b = models.make_builder(models.Config(reaction, formalism, dynamics=dyn))
+            try:
+                for w in history:
+                    models.reconfigure(b, models.Config(reaction, formalism, **WORDS[w]))
+                    last = b.formulate()
+                break
+            except ValueError as e:
+                if dyn == "bw" or "Angular momentum is not defined" not in str(e):
+                    raise
         print(json.dumps(digest(last)))
         return
     for w in history:
